@@ -83,6 +83,13 @@ ASSUMPTIONS = [
     "GroupValueResponse with a generated payload (as the repository's own tests do).",
     "decode(encode(v)) is compared for v taken from the decode image after a JSON cycle, so every v is "
     "representable; equality is exact apart from NaN == NaN and U+FFFD == '?'.",
+    "Independent image: the value every inversion starts from is the DPT transcoder's own from_knx result in the "
+    "documented JSON form (complex -> as_dict(), enum -> lower-cased name, tuple -> list, then a JSON cycle), and the "
+    "tool's decode / read result has to equal it (binary float noise below 1e-12 relative is not judged). For DPT "
+    "14.xxx the result must also lie within 7 significant digits (6e-7 relative) of the IEEE single the 4 octets "
+    "encode; its image holds everyday values, one value per third decade from 1e-37 to 1e-1, physical constants "
+    "down to 1e-30 and subnormals. Values given directly (numeric range points, float32 list, every enum name) are "
+    "encoded and decoded as well; a number must come back within half a payload step plus half a declared step.",
     "Payload forms: a 6-bit payload v is offered both as the bare int v and as [v] (the two spellings the tool "
     "documents), octet arrays as the list of their octets; every form of one payload must give the same value or "
     "the same kind of rejection. The payload handed back to the decoder is the encoder's result verbatim after "
@@ -270,6 +277,13 @@ def codec_owner_name(T: type[DPTBase]) -> str:
     return T.__name__
 
 
+def _float_noise_only(a: Any, b: Any) -> bool:
+    """Two plain numbers that differ by binary float noise only (2.55 vs 2.5500000000000003)."""
+    if isinstance(a, bool) or isinstance(b, bool) or not isinstance(a, (int, float)) or not isinstance(b, (int, float)):
+        return False
+    return a == b or (math.isfinite(a) and math.isfinite(b) and abs(a - b) <= 1e-12 * max(abs(a), abs(b)))
+
+
 def compare_with_references(ctx, tool: str, T: type[DPTBase], payload: int | list[int], got_ok: bool, got: Any, inp: dict) -> tuple[bool, Any]:
     """The tool's reading of a payload against (1) the transcoder's own from_knx in documented JSON form and
     (2) for DPT 14.xxx an independent float32 interpretation of the octets.  Returns the transcoder's (accepted?, value)."""
@@ -277,7 +291,7 @@ def compare_with_references(ctx, tool: str, T: type[DPTBase], payload: int | lis
     owner = codec_owner_name(T)
     if ref_ok != got_ok:
         ctx.fail(f"C45:decode-differs-from-transcoder:{tool}:{owner}", inp, f"{T.__name__} payload {payload!r}: transcoder {'gives ' + repr(ref) if ref_ok else 'rejects it'}, {tool} {'gives ' + repr(got) if got_ok else 'rejects it'}")
-    elif ref_ok and not same(got, ref):
+    elif ref_ok and not same(got, ref) and not _float_noise_only(got, ref):
         ctx.fail(f"C45:decode-differs-from-transcoder:{tool}:{owner}", inp, f"{T.__name__} payload {payload!r}: transcoder decodes {ref!r}, {tool} reports {got!r}")
     if got_ok and is_float32_type(T) and isinstance(payload, list) and len(payload) == 4:
         f32 = float32_of(payload)
@@ -427,9 +441,11 @@ def direct_values(ctx, dpt: type[DPTBase], count: bool = True) -> None:
         picks = {lo, hi, lo + res, hi - res, lo + (hi - lo) // 2 if isinstance(lo, int) and isinstance(hi, int) else (lo + hi) / 2, 0, res, 3 * res, 7 * res, -res}
         for x in sorted(picks):
             if lo <= x <= hi:
-                # nearest representable value: half a step; the 2-octet float (DPT 9) has an 11 bit mantissa
-                step = max(res, abs(x) / 1024) if T.dpt_main_number == 9 else res
-                cases.append((x, step * 0.5 + 1e-9 * max(1.0, abs(x))))
+                # nearest representable value: half a step of the payload, plus half a declared step for types
+                # that round the decoded value to it (1-octet scaled types: 360 deg over 255 steps, read back
+                # as whole degrees); the 2-octet float (DPT 9) has an 11 bit mantissa
+                step = max(res, abs(x) / 1024) if T.dpt_main_number == 9 else max(res, (hi - lo) / (256.0**T.payload_length - 1))
+                cases.append((x, step * 0.5 + res * 0.5 + 1e-9 * max(1.0, abs(x))))
     elif fam == "enum":
         cases = [(m.name.lower(), None) for m in T.data_type]  # type: ignore[attr-defined]
     for x, tol in cases:
